@@ -94,7 +94,7 @@ fn push_arith(sink: &mut Sink, meta: &mut Meta, st: &mut Stats, tera: &Tera, a: 
     let mut n_ok = 0;
     for (name, sym) in OPS {
         let r = eval_expr(tera, &format!("a {sym} b"), &ctx);
-        meta.oracle_checks += 1;
+        meta.oracle_checks += 2;
         let desc1 = json!({"op": sym, "a": json_value(a), "b": json_value(b), "impl": r.json(json_value)});
         if let Outcome::Panic(m) = &r {
             meta.oracle_fail(&format!("panic: {m}"), None, desc1.clone());
@@ -105,6 +105,35 @@ fn push_arith(sink: &mut Sink, meta: &mut Meta, st: &mut Stats, tera: &Tera, a: 
                 if (-1..=1).contains(&x) && y > u32::MAX as i128 && !matches!(r, Outcome::Ok(_)) {
                     st.pow_kf_hits += 1;
                     meta.oracle_fail("integer ** errors although the exact result fits in i128", Some(KF_POW), desc1.clone());
+                }
+            }
+        }
+        // implementation-side "exact or error" oracle on two i128 operands, computed with Rust's
+        // own checked arithmetic (independent of the Coq model): an Ok must carry the exact
+        // value, an error is only allowed when the exact value does not exist / does not fit
+        if let (Some(Number::Integer(x)), Some(Number::Integer(y))) = (a.as_number(), b.as_number()) {
+            let exact: Option<Option<i128>> = match sym {
+                "+" => Some(x.checked_add(y)),
+                "-" => Some(x.checked_sub(y)),
+                "*" => Some(x.checked_mul(y)),
+                "//" => Some(if y == 0 { None } else { x.checked_div_euclid(y) }),
+                "%" => Some(if y == 0 { None } else { Some(x.wrapping_rem_euclid(y)) }),
+                "**" if y >= 0 && (-1..=1).contains(&x) => {
+                    Some(Some(if y == 0 { 1 } else if x == -1 { if y % 2 == 0 { 1 } else { -1 } } else { x }))
+                }
+                "**" if y >= 0 && y <= 200 => Some(x.checked_pow(y as u32)),
+                _ => None,
+            };
+            if let Some(exact) = exact {
+                let bad = match (&r, exact) {
+                    (Outcome::Ok(v), Some(e)) => v.as_i128() != Some(e) || v.as_number().map_or(true, |n| n.is_float()),
+                    (Outcome::Ok(_), None) => true,
+                    (Outcome::Err(..), Some(_)) => !(sym == "**" && y > u32::MAX as i128), // D4 is reported above
+                    (Outcome::Err(..), None) => false,
+                    (Outcome::Panic(_), _) => false, // reported above
+                };
+                if bad {
+                    meta.oracle_fail(&format!("integer `{sym}` is neither the exact result nor an error-iff-out-of-range (exact: {exact:?})"), None, desc1.clone());
                 }
             }
         }
@@ -650,9 +679,32 @@ fn main() {
     }
     let mut exhaustive_cmp = false;
     if thorough {
-        // every ordered pair of pool numbers in every representation
-        for a in &numbers {
-            for b in &numbers {
+        // every float of the pool against every boundary integer in EVERY representation, both
+        // operand orders, and every ordered pair of floats
+        for f in &floats {
+            for z in &ints_all_reps {
+                push_cmp(&mut cmp, &mut meta, &tera, f, z);
+                push_cmp(&mut cmp, &mut meta, &tera, z, f);
+            }
+            for g in &floats {
+                push_cmp(&mut cmp, &mut meta, &tera, f, g);
+            }
+        }
+        // every ordered pair of boundary integer VALUES (one representation each, at random) ...
+        let vals: Vec<Value> = int_vals.iter().map(|z| rand_rep(&mut rng, *z)).chain(big_u.iter().cloned()).collect();
+        for a in &vals {
+            for b in &vals {
+                push_cmp(&mut cmp, &mut meta, &tera, a, b);
+            }
+        }
+        // ... and every ordered pair of ALL representations of the integers at the width boundaries
+        let mut edge: Vec<Value> = Vec::new();
+        for z in [0i128, 1, -1, (1 << 63) - 1, 1 << 63, -(1i128 << 63), -(1i128 << 63) - 1, (1 << 64) - 1, 1 << 64, i128::MAX, i128::MIN] {
+            edge.extend(pools::int_reps(z));
+        }
+        edge.extend(big_u.iter().cloned());
+        for a in &edge {
+            for b in &edge {
                 push_cmp(&mut cmp, &mut meta, &tera, a, b);
             }
         }
@@ -730,7 +782,7 @@ fn main() {
             }
         }
     }
-    for _ in 0..(if thorough { 3000 } else { 120 }) {
+    for _ in 0..(if thorough { 1500 } else { 120 }) {
         if rng.chance(1, 3) {
             let (x, y) = (rand_f64(&mut rng), rand_f64(&mut rng));
             push_prim_float2(&mut prim, &mut meta, x, y);
@@ -749,7 +801,7 @@ fn main() {
     meta.extra.insert("oracle_only_note".into(), json!("`**` with a float operand or a negative integer exponent (f64::powf) is run for the no-panic oracle only; the model does not compute it"));
     meta.extra.insert("pow_exponent_above_u32_hits".into(), json!(st.pow_kf_hits));
     meta.extra.insert("exhaustive_arith_pairs_of_boundary_values".into(), json!(exhaustive_arith));
-    meta.extra.insert("exhaustive_cmp_pairs_of_pool_numbers_all_reps".into(), json!(exhaustive_cmp));
+    meta.extra.insert("exhaustive_cmp_float_x_all_int_reps_and_value_pairs".into(), json!(exhaustive_cmp));
     meta.extra.insert("pool_sizes".into(), json!({"boundary_ints": int_vals.len(), "ints_all_reps": ints_all_reps.len(), "floats": floats.len(), "u128_above_i128": big_u.len()}));
     meta.families.push(arith.finish());
     meta.families.push(neg.finish());
